@@ -33,7 +33,7 @@ META = {
     ),
     "C06": dict(
         text="Kernel-checked theorems over the Lean model of token/hmac (Generate, Validate with its key loop and early exit, validate, Signature) and the prefixed / device-code strategies, for every secret, rotated-secret list and token string, with MAC and base64 as parameters: Validate equals a loop-free verdict; acceptance iff the token is a.b with non-empty decodable parts and some configured key of >=32 bytes authenticates the random part against the signature part with every earlier key >=32 bytes and mismatching; short and missing secrets are refused; minted tokens validate (also after rotation) and carry the returned signature; altered parts and foreign-key tokens are rejected (under explicit MAC hypotheses); distinct random parts give distinct tokens; max(entropy,32) random bytes. Tied to /repo by a differential run of the real functions on minted tokens and all their mutations.",
-        note=COMMON_NOTE + "HMAC half; the JWT access-token decision logic is not modelled yet (listed under partial). Cryptographic strength (unforgeability, collision freedom, freshness of crypto/rand) is assumed as named hypotheses, not proved.",
+        note=COMMON_NOTE + "JWT half: model of DefaultSigner.{Generate,Validate,Decode}, ParseWithClaims, DefaultJWTStrategy.validate/toRFCErr and the stateless introspector over every key-getter result and every token shape: acceptance iff a well-formed JWS signed for an RS*/PS*/ES* algorithm of the configured key's type by the configured key with claims in time; none, every symmetric and every unknown spelling refused at the algorithm / key-type switch independently of any MAC (key confusion), tied by a differential run on really minted and mutated tokens. Cryptographic strength (unforgeability, collision freedom, freshness of crypto/rand) is assumed as named hypotheses, not proved.",
         technique="Lean 4 proof (model = declarative verdict by induction over the key list) + differential correspondence with the real HMAC strategies",
     ),
     "C08": dict(
